@@ -189,6 +189,15 @@ func VerifC13Main() {
 	kinds := strings.Split(parts[0], ",")
 	var m int
 	fmt.Sscanf(parts[1], "%d", &m)
+	// "<m>b": the first of the m reloads finds a subnet file that does not load (half-written at SIGHUP time): it
+	// must return its error and leave the registrar answering; "<m>g": the same with a missing file
+	broken := ""
+	if strings.HasSuffix(parts[1], "b") {
+		broken = filepath.Join(dir, "broken.toml")
+		_ = os.WriteFile(broken, []byte("[Networks\n  [Networks.1\n"), 0o644)
+	} else if strings.HasSuffix(parts[1], "g") {
+		broken = filepath.Join(dir, "gone.toml")
+	}
 
 	mk := func() *vsched.Scenario {
 		os.Setenv("PHANTOM_SUBNET_LOCATION", first)
@@ -225,6 +234,9 @@ func VerifC13Main() {
 					f := second
 					if j%2 == 1 {
 						f = first
+					}
+					if j == 0 && broken != "" {
+						f = broken
 					}
 					os.Setenv("PHANTOM_SUBNET_LOCATION", f)
 					reloadErr[j] = p.ReloadSubnets()
@@ -280,6 +292,12 @@ func VerifC13Main() {
 				}
 			}
 			for j := range reloadRet {
+				if j == 0 && broken != "" {
+					if !reloadRet[j] || reloadErr[j] == nil {
+						return &vsched.Violation{Key: "broken-reload-outcome", What: fmt.Sprintf("reload of an unloadable file: ret=%v err=%v", reloadRet[j], reloadErr[j])}
+					}
+					continue
+				}
 				if !reloadRet[j] || reloadErr[j] != nil {
 					return &vsched.Violation{Key: "reload-failed", What: fmt.Sprintf("reload %d: ret=%v err=%v", j, reloadRet[j], reloadErr[j])}
 				}
